@@ -12,6 +12,15 @@ for p in C01 C02 C03 C04 C05 C06 C07 C08 C09 C10 C11 C13 C14 C15 C16 C17 C18 C19
     "OK property="*) ;;
     *) echo "NOT PROVED: $p: ${l:0:200}"; bad=1 ;;
   esac
+  # the evidence record of a proof must have every claimed obligation discharged (an ignored format!-Display precondition once left 4 open)
+  python3 - "$p" <<'PY' || bad=1
+import json, sys
+d = json.load(open("/verif/evidence/%s.json" % sys.argv[1]))
+c = d["coverage"]
+if d["level"] == "proof" and c["discharged"] != c["obligations"]:
+    print("EVIDENCE INCONSISTENT: %s discharged %s of %s obligations" % (sys.argv[1], c["discharged"], c["obligations"]))
+    sys.exit(1)
+PY
 done
 [ "$bad" = 0 ] && echo "selfcheck: all proved"
 exit $bad
